@@ -48,6 +48,15 @@ def _chunks(xs, n):
 
 CASE_TIMEOUT_S = float(os.environ.get("VJX_CASE_TIMEOUT", "5"))   # one case normally takes milliseconds
 MAX_TIMEOUTS_PER_CHUNK = 3
+# address-space limit of every harness process: a transform that stops returning usually also allocates without bound (18 GB in
+# a minute for a seeded change of the type resolver) and sixteen of those in parallel would take the machine down before the
+# wall-clock limit fires; under the limit the allocation fails, the process aborts and the case is reported as an abort
+CASE_MEM_BYTES = int(float(os.environ.get("VJX_CASE_MEM_GB", "3")) * (1 << 30))
+
+
+def _limit_mem():
+    import resource
+    resource.setrlimit(resource.RLIMIT_AS, (CASE_MEM_BYTES, CASE_MEM_BYTES))
 
 
 def _run_harness_chunk(args):
@@ -57,7 +66,7 @@ def _run_harness_chunk(args):
     timed_out = False
     try:
         p = subprocess.run([HARNESS, mode], input=inp.encode("utf-8", "replace"), capture_output=True, env=env,
-                           timeout=20 + CASE_TIMEOUT_S + 0.02 * len(cases))
+                           timeout=20 + CASE_TIMEOUT_S + 0.02 * len(cases), preexec_fn=_limit_mem)
         out, rc = p.stdout, p.returncode
     except subprocess.TimeoutExpired as e:
         out, rc, timed_out = (e.stdout or b""), None, True
@@ -79,12 +88,12 @@ def _run_harness_chunk(args):
             try:
                 try:
                     q = subprocess.run([HARNESS, mode], input=(json.dumps(c) + "\n").encode("utf-8", "replace"), capture_output=True,
-                                       env=env, timeout=CASE_TIMEOUT_S)
+                                       env=env, timeout=CASE_TIMEOUT_S, preexec_fn=_limit_mem)
                 except subprocess.TimeoutExpired:
                     # a loaded machine (other checks, builds) can starve one process for seconds: a case counts as "does not return" only
                     # if it also exceeds a limit no scheduling hiccup explains
                     q = subprocess.run([HARNESS, mode], input=(json.dumps(c) + "\n").encode("utf-8", "replace"), capture_output=True,
-                                       env=env, timeout=max(60.0, 12 * CASE_TIMEOUT_S))
+                                       env=env, timeout=max(60.0, 12 * CASE_TIMEOUT_S), preexec_fn=_limit_mem)
             except subprocess.TimeoutExpired:
                 n_to += 1
                 recs.append({"id": c.get("id"), "abort": True, "timeout": True, "returncode": None,
